@@ -1,2 +1,3 @@
 import PyribsGen.RngSites
 import PyribsGen.Formulas
+import PyribsGen.Control
